@@ -147,12 +147,23 @@ type Frame struct {
 
 type fact struct {
 	guard, body *Term
+	frame       bool // an automatic "everything that existed before is unchanged" fact (may be dropped by a query variant)
 }
 
 type abort struct{ msg string }
 
 func (E *Engine) fail(format string, args ...interface{}) {
 	panic(abort{fmt.Sprintf(format, args...)})
+}
+
+// addFrameFact: like addFact, for the automatic birth-based frame facts. One racing variant of
+// every query leaves them out (fewer quantifiers; dropping facts is sound for a refutation).
+func (E *Engine) addFrameFact(st *State, f *Term) {
+	n := len(E.facts)
+	E.addFact(st, f)
+	for i := n; i < len(E.facts); i++ {
+		E.facts[i].frame = true
+	}
 }
 
 func (E *Engine) addFact(st *State, f *Term) {
@@ -162,11 +173,11 @@ func (E *Engine) addFact(st *State, f *Term) {
 	// quantified conjunctions are distributed so that every piece gets its own triggers
 	if f.kind == kQuant || f.op == "and" || f.op == "or" || f.op == "=>" {
 		for _, p := range E.splitGoal(f, 48) {
-			E.facts = append(E.facts, fact{E.absReach(st), p})
+			E.facts = append(E.facts, fact{guard: E.absReach(st), body: p})
 		}
 		return
 	}
-	E.facts = append(E.facts, fact{E.absReach(st), f})
+	E.facts = append(E.facts, fact{guard: E.absReach(st), body: f})
 }
 
 // absReach: path condition from the start of the harness. Inside a call, states carry the path
